@@ -6,6 +6,13 @@ ENGINES = [
 ]
 NOTES = 'All checks: ./check <ID> [--tier quick|thorough] [--replay FILE]; exit 0 held / 1 violation / 2 harness problem or inconclusive. See DESIGN.md.'
 CHECKS = {
+ 'C04': {
+  'engine': 'simrun (Hypothesis, seeded real RNG) + forkrng for exact horizon hits',
+  'technique': 'Hypothesis-generated simulator calls (12 simulators, both return modes) checked against a two-directional validity predicate; table-driven and forked-clock runs that put events exactly on tmax',
+  'design_ref': 'DESIGN.md section 3 C04',
+  'text': 'Generated (simulator, graph, rates, weights, initial sets, tmin/tmax, seed) cases; the returned series must have equal lengths, start at tmin with the initial counts, be time-ordered, stay below tmax, hold non-negative integer counts summing to N, change by exactly one legal move per row in continuous time, be monotone for SIR and end without infected nodes for an unbounded horizon. Events exactly at tmax (measure zero under a real RNG) are produced by dyadic delay tables and by the forking clock.',
+  'note': 'Validity predicate only (laws are C01-C03, C12, C15). Legal moves of the generic simulators are read from the specification passed to them. Domain tmax>tmin.',
+ },
  'C12': {
   'engine': 'forkrng+oracles',
   'technique': 'Hypothesis table-driven differential vs independent generation loop; exhaustive whole-run law (forking RNG) vs Reed-Frost / discrete-SIS path probabilities on all graphs n<=3',
